@@ -31,12 +31,18 @@ class StrConcatInSeqLiteral(SimpleCodemod, NameResolutionMixin, AncestorPatterns
             self.node_position(original_node)
         ):
             return updated_node
-        return updated_node.with_changes(elements=self._process_elements(original_node))
+        return updated_node.with_changes(
+            elements=self._process_elements(original_node, updated_node)
+        )
 
-    def _process_elements(self, original_node: cst.List) -> list[cst.Element]:
+    def _process_elements(
+        self, original_node: cst.List, updated_node: cst.List
+    ) -> list[cst.Element]:
+        # Work on the updated elements so that rewrites already made to nested
+        # sequences are kept; positions come from the original node.
         new_elements = []
         prev_comma = None
-        for element in original_node.elements:
+        for element in updated_node.elements:
             match element.value:
                 case cst.ConcatenatedString():
                     self.report_change(original_node)
@@ -45,7 +51,7 @@ class StrConcatInSeqLiteral(SimpleCodemod, NameResolutionMixin, AncestorPatterns
                         # the very last element should only have a comma if the last element
                         # of the original list had a comma
                         if (
-                            element == original_node.elements[-1]
+                            element == updated_node.elements[-1]
                             and part == flattened_parts[-1]
                         ):
                             new_elements.append(
